@@ -67,7 +67,8 @@ fn scenario(sc: &Value) -> Value {
         let (tx, rx) = ipc::channel::<u64>().unwrap();
         rxs.push(Some(rx));
         let cnt = msgs[r - 1];
-        let presend = sc["presend"].as_array().and_then(|a| a.get(r - 1)).and_then(|b| b.as_bool()).unwrap_or(false);
+        // messages queued before the route can possibly be registered
+        let presend = sc["presend"].as_array().and_then(|a| a.get(r - 1)).and_then(|b| b.as_i64()).unwrap_or(0).min(cnt);
         let start = start.clone();
         let send_errors = send_errors.clone();
         sender_threads.push(std::thread::spawn(move || {
@@ -75,8 +76,7 @@ fn scenario(sc: &Value) -> Value {
             let mut rng = StdRng::seed_from_u64(seed * 1000 + r as u64);
             let tx: IpcSender<u64> = tx;
             let mut x = 1;
-            if presend && cnt > 0 {
-                // queued before the route can possibly be registered
+            while x <= presend {
                 verif::emit("h.send", &[("r", r as i64), ("x", x)]);
                 if tx.send(x as u64).is_err() {
                     send_errors.fetch_add(1, Ordering::SeqCst);
